@@ -72,9 +72,15 @@ def _dtype_arg(dt):
     return dt
 
 
+EXTRA_CHECK_BUILDERS = {}     # check kind -> callable(pa, check spec) (registered by property modules, e.g. C16's "fn")
+EXTRA_PARSER_BUILDER = None   # callable(pa, parser spec dict) for dict-valued parser specs
+
+
 def build_check(pa, c):
     kw = dict(c.get("kw") or {})
     k = c["k"]
+    if k in EXTRA_CHECK_BUILDERS:
+        return EXTRA_CHECK_BUILDERS[k](pa, c)
     args = list(c.get("a") or [])
     if k == "custom_gt0":
         return pa.Check(lambda s: s > 0, name="custom_gt0", **kw)
@@ -97,7 +103,7 @@ def _checks(pa, lst):
 
 
 def _parsers(pa, lst):
-    return [pa.Parser(PARSERS[n]) for n in (lst or [])]
+    return [EXTRA_PARSER_BUILDER(pa, n) if isinstance(n, dict) else pa.Parser(PARSERS[n]) for n in (lst or [])]
 
 
 def build_pandas_component(c, kind):
@@ -127,7 +133,7 @@ def build_pandas_index(ix):
         return build_pandas_component(ix, "index")
     levels = [build_pandas_component(l, "index") for l in ix["levels"]]
     return pa.MultiIndex(levels, coerce=ix.get("coerce", False), strict=ix.get("strict", False),
-                         ordered=ix.get("ordered", True), unique=ix.get("unique"))
+                         ordered=ix.get("ordered", True), unique=ix.get("unique"), name=ix.get("name"))
 
 
 def build_pandas(spec):
@@ -226,7 +232,7 @@ def build_polars(spec):
             cols, checks=_checks(pa, s["checks"]), dtype=_pl_dtype(s["dtype"]), coerce=s["coerce"], strict=s["strict"],
             name=s["name"], ordered=s["ordered"], unique=s["unique"], add_missing_columns=s["add_missing_columns"],
             drop_invalid_rows=s["drop_invalid_rows"], title=s["title"], description=s["description"],
-            metadata=s["metadata"])
+            metadata=s["metadata"], unique_column_names=s["unique_column_names"])
 
 
 def strip_parsing(spec):
